@@ -175,7 +175,12 @@ class Destinations(object):
 
         @raises ValueError: If the destination is unknown.
         """
-        self._destinations.remove(destination)
+        # Replace the list rather than changing it in place: a send() that
+        # is going through it right now (the destination may well be removing
+        # itself from inside its own call) must not skip the next one.
+        destinations = list(self._destinations)
+        destinations.remove(destination)
+        self._destinations = destinations
 
 
 class ILogger(Interface):
